@@ -133,8 +133,17 @@ RollupOf(tb, cfg, names) ==
 (*                  roll-up column iff aggd, and is the same frame whenever *)
 (*                  the same options are used in the same state             *)
 NoFilters(o) == ~o.include.given /\ ~o.exclude.given
-\* what the roll-up column must be for a save without filters: absent before compute_aggregate
+\* The state of the object is the set of roll-up names given to compute_aggregate so far (aggs; {} before the first
+\* call).  A roll-up is one more result: it never replaces or removes a test result, whatever its name (it may even
+\* be the name of a test that ran), and a later roll-up equals an earlier one (AggIdempotent).
+\* what the roll-up columns must be for a save without filters: one per name, each the roll-up of all test results
 RollupWanted(tb, cfg, names, aggd) == IF aggd THEN RollupOf(tb, cfg, names) ELSE <<>>
+RollupsOK(rolls, tb, cfg, names, aggs) ==
+    LET want == RollupOf(tb, cfg, names) IN
+    IF aggs = {} THEN rolls = <<>>
+    ELSE want # <<>> => /\ { rolls[j].name : j \in 1..Len(rolls) } = aggs
+                        /\ Len(rolls) = Cardinality(aggs)
+                        /\ \A j \in 1..Len(rolls) : rolls[j].vals = want
 RollupOK(roll, tb, cfg, names, aggd) ==
     LET want == RollupWanted(tb, cfg, names, aggd) IN
     IF want = <<>> THEN (aggd \/ ~roll.found) ELSE (roll.found /\ roll.vals = want)
